@@ -88,13 +88,13 @@ fn lzma_finish_short(marker: bool) {
     kani::cover!(true, "end reached");
 }
 
-//@ {"name":"c18c_lzma_finish_short_no_marker","props":["C18","C19"],"obligation":"C18-C","timeout":1500,"mem_gb":9,"functions":["enc::lzma_writer::LZMAWriter::new","enc::lzma_writer::LZMAWriter::write","enc::lzma_writer::LZMAWriter::finish"],"bounds":"declared size 5, 3 bytes written, header, no end marker (all concrete); unwind 14","assumes":["LZMAEncoder::new stubbed"],"stubs":["LZMAEncoder::new -> verif_cheap_encoder"]}
+//@ {"name":"c18c_lzma_finish_short_no_marker","props":["C18","C19"],"no_inputs":true,"obligation":"C18-C","timeout":1500,"mem_gb":9,"functions":["enc::lzma_writer::LZMAWriter::new","enc::lzma_writer::LZMAWriter::write","enc::lzma_writer::LZMAWriter::finish"],"bounds":"declared size 5, 3 bytes written, header, no end marker (all concrete); unwind 14","assumes":["LZMAEncoder::new stubbed"],"stubs":["LZMAEncoder::new -> verif_cheap_encoder"]}
 #[kani::proof]
 #[kani::unwind(14)]
 #[kani::stub(crate::enc::encoder::LZMAEncoder::new, crate::enc::encoder::verif_stubs_enc::verif_cheap_encoder)]
 fn c18c_lzma_finish_short_no_marker() { lzma_finish_short(false); }
 
-//@ {"name":"c18c_lzma_finish_short_with_marker","props":["C18","C19"],"obligation":"C18-C","timeout":1500,"mem_gb":9,"functions":["enc::lzma_writer::LZMAWriter::new","enc::lzma_writer::LZMAWriter::write","enc::lzma_writer::LZMAWriter::finish"],"bounds":"declared size 5, 3 bytes written, header AND end marker (the combination only the 5-argument constructor produces); unwind 14","assumes":["LZMAEncoder::new stubbed"],"stubs":["LZMAEncoder::new -> verif_cheap_encoder"]}
+//@ {"name":"c18c_lzma_finish_short_with_marker","props":["C18","C19"],"no_inputs":true,"obligation":"C18-C","timeout":1500,"mem_gb":9,"functions":["enc::lzma_writer::LZMAWriter::new","enc::lzma_writer::LZMAWriter::write","enc::lzma_writer::LZMAWriter::finish"],"bounds":"declared size 5, 3 bytes written, header AND end marker (the combination only the 5-argument constructor produces); unwind 14","assumes":["LZMAEncoder::new stubbed"],"stubs":["LZMAEncoder::new -> verif_cheap_encoder"]}
 #[kani::proof]
 #[kani::unwind(14)]
 #[kani::stub(crate::enc::encoder::LZMAEncoder::new, crate::enc::encoder::verif_stubs_enc::verif_cheap_encoder)]
